@@ -27,7 +27,11 @@ META.update({
     'budget': {'quick': 30, 'thorough': 420},
     'anchors': c03.META['anchors'] + ['doit/runner.py::MRunner', 'doit/runner.py::MThreadRunner',
                                        'doit/tools.py::timeout', 'doit/tools.py::check_timestamp_unchanged'],
-    'design_ref': '§5 C04, §4 M2',
+    'design_ref': '§5 C04, §4 M2, §11.8',
+    'technique': c03.META['technique'] + '; Lean 4 proofs over an executable model of the uptodate helpers of '
+                 'doit/tools.py and task.py::result_dep (answer and saver as functions of what the last successful '
+                 'execution saved and the present world) + unit-level differential correspondence against the real '
+                 'helper objects driven the way get_status / save_success drive them',
     'level_text': 'Machine-checked: for every finite history (as C03) and every prefix, a task for which none of the '
                   'not-up-to-date conditions holds relative to its last recorded successful execution gets status '
                   '"up-to-date" and the runner leaves it alone (no execution, no DB change); right after the runner '
